@@ -271,6 +271,9 @@ func (v AbsVal) String() string {
 	case vCmp:
 		return "cmp"
 	case vErrAt:
+		if v.idx != nil {
+			return "err@" + v.idx.Name()
+		}
 		return "err@" + fmt.Sprint(v.errOff)
 	case vIdx:
 		return fmt.Sprintf("idx[%s..%s safe %s back %v]", infs(v.ilo), infs(v.ihi), infs(v.safe), v.back)
@@ -330,7 +333,7 @@ func eqAbs(a, b AbsVal) bool {
 	case vMark:
 		return a.mlo == b.mlo && a.mhi == b.mhi && a.dlo == b.dlo && a.dhi == b.dhi && a.epoch == b.epoch && a.fresh == b.fresh && a.snap == b.snap && a.snapOff == b.snapOff
 	case vRuneLen:
-		return a.fresh == b.fresh && a.runeOK == b.runeOK
+		return a.fresh == b.fresh && a.runeOK == b.runeOK && a.idx == b.idx
 	case vAtomLen:
 		return a.atom == b.atom
 	case vSlice:
@@ -344,7 +347,7 @@ func eqAbs(a, b AbsVal) bool {
 	case vCmp:
 		return a.cmpX == b.cmpX && a.cmpOp == b.cmpOp && a.cmpK == b.cmpK && a.cmpY == b.cmpY && a.neg == b.neg
 	case vErrAt:
-		return a.errOff == b.errOff && a.neg == b.neg
+		return a.errOff == b.errOff && a.neg == b.neg && a.idx == b.idx
 	case vTable:
 		return a.table == b.table && a.tabX == b.tabX && a.neg == b.neg
 	case kHeapRef:
@@ -463,7 +466,10 @@ func joinAbs(a, b AbsVal, wl int) AbsVal {
 		}
 		return out
 	case vRuneLen:
-		return AbsVal{k: vRuneLen, fresh: a.fresh && b.fresh, runeOK: a.runeOK && b.runeOK}
+		if a.idx != b.idx {
+			return top
+		}
+		return AbsVal{k: vRuneLen, fresh: a.fresh && b.fresh, runeOK: a.runeOK && b.runeOK, idx: a.idx}
 	case kOffset:
 		return AbsVal{k: kOffset, fresh: a.fresh && b.fresh}
 	case vSlice:
@@ -863,6 +869,8 @@ func (s *State) unfresh() {
 			av := *avP
 			av.idx = nil
 			s.vals[v] = &av
+		case (avP.k == vErrAt || avP.k == vRuneLen) && avP.idx != nil:
+			delete(s.vals, v)
 		}
 	}
 }
